@@ -39,3 +39,28 @@ def known_e2e(report, fid, still_fails, witness, what):
     else:
         path = write_replay(report.prop, fid, {'kind': 'e2e', 'property': report.prop, 'obligation': fid, 'formula': witness, 'detail': what})
         report.violations.append({'what': what, 'replay': path, 'no_input': False})
+
+
+def formula_table(report, name, bound, rows, variables=None, functions=None):
+    """ a table of formulas with the outcome the property demands (a value with its type, an error code, or a predicate over the record),
+        each on a fresh parser through the real Parser.parse; labelled bounded """
+    from pyvc import e2e
+    fails = []
+    cases = 0
+    for formula, want in rows:
+        p = e2e.new_parser()
+        for k, v in (variables or {}).items():
+            p.set_variable(k, v)
+        for k, v in (functions or {}).items():
+            p.set_function(k, v)
+        r = p.parse(formula)
+        cases += 1
+        if callable(want):
+            ok = bool(want(r))
+        elif isinstance(want, str) and want.startswith('#'):
+            ok = r == {'result': None, 'error': want}
+        else:
+            ok = r['error'] is None and r['result'] == want and type(r['result']) is type(want)
+        if not ok and len(fails) < 5:
+            fails.append({'formula': formula, 'detail': 'expected %s, got %r' % (want.__doc__ if callable(want) else repr(want), r)})
+    bounded(report, name, bound, cases, fails)
